@@ -17,7 +17,7 @@ theorem ival_succ (i hi : Nat) (h : i < hi) (x : Nat) : (x = i ∨ Ival (i + 1) 
   simp only [Ival]; omega
 
 /-- **a node with one operand scheduled inline**: first visit (may emit `pre`), the operand, second visit (emits `post`) -/
-theorem sim_one_child {lo hi clo chi i c : Nat} {e x : Expr F} {pn : ParseNode}
+theorem sim_one_childF {lo hi clo chi i c : Nat} {g : Nat → Nat → LState F → LState F} {x : Expr F} {pn : ParseNode}
     {pre_ : LState F → LState F} {post : Nat → LState F → LState F}
     (hpn : tree[i]? = some pn) (hin : lo ≤ i ∧ i < hi) (hci : clo ≤ c ∧ c < chi) (hct : c < tree.size)
     (hiv : ∀ y, (y = i ∨ Ival clo chi y) ↔ Ival lo hi y) (hni : ¬ Ival clo chi i)
@@ -32,8 +32,8 @@ theorem sim_one_child {lo hi clo chi i c : Nat} {e x : Expr F} {pn : ParseNode}
       ∃ dataZ, handleParseNode pf ⟨data, nodes, RS, S⟩ crj i pn = .ok ⟨dataZ, nodes, RS, S⟩ ∧ DataEq dataZ (post cur s))
     (hpre_p : ∀ s, (pre_ s).pending = s.pending) (hpre_j : ∀ s, s.jumps.size ≤ (pre_ s).jumps.size)
     (hpost_p : ∀ cur s, (post cur s).pending = s.pending)
-    (hemit : ∀ root cur s, emit root cur e s = post cur (emit root cur x (pre_ s)))
-    (ih : SimT pf tree bodies clo chi c x) : SimT pf tree bodies lo hi i e := by
+    (hemit : ∀ root cur s, g root cur s = post cur (emit root cur x (pre_ s)))
+    (ih : SimT pf tree bodies clo chi c x) : SimF pf tree bodies lo hi i g := by
   intro crj root cur data nodes RS S s lp cp pbn pre hdat hcur
   have hlt : i < nodes.size := lt_of_get pre.node
   have hic : i ≠ c := fun h => hni (h ▸ hci)
@@ -94,6 +94,26 @@ theorem sim_one_child {lo hi clo chi i c : Nat} {e x : Expr F} {pn : ParseNode}
       refine counted_parent ?_
       rw [hHo par (hne par d rfl).1 (hne par d rfl).2]
       exact (pre.par par d rfl).2.1
+
+/-- … for a node that is an expression of its own -/
+theorem sim_one_child {lo hi clo chi i c : Nat} {e x : Expr F} {pn : ParseNode}
+    {pre_ : LState F → LState F} {post : Nat → LState F → LState F}
+    (hpn : tree[i]? = some pn) (hin : lo ≤ i ∧ i < hi) (hci : clo ≤ c ∧ c < chi) (hct : c < tree.size)
+    (hiv : ∀ y, (y = i ∨ Ival clo chi y) ↔ Ival lo hi y) (hni : ¬ Ival clo chi i)
+    (hfirst : ∀ (crj : Nat) (data : BState F) (nodes : Nodes) (RS S : Array Nat) (b : BuildNode) (s : LState F),
+      nodes[i]? = some (some b) → b.state = .uninitialized → b.parseNodeIndex = i → c < nodes.size → DataEq data s →
+      ∃ dataF, handleParseNode pf ⟨data, nodes, RS, S⟩ crj i pn =
+          .ok ⟨dataF, putNode (putNode nodes i (visited b)) c (BuildNode.new c b.containingExpressionJump), RS, (S.push i).push c⟩ ∧
+        DataEq dataF (pre_ s))
+    (hsecond : ∀ (crj cur : Nat) (data : BState F) (nodes : Nodes) (RS S : Array Nat) (b : BuildNode) (s : LState F),
+      nodes[i]? = some (some b) → b.state = .initialized → b.parseNodeIndex = i → b.containingExpressionJump = cur →
+      DataEq data s →
+      ∃ dataZ, handleParseNode pf ⟨data, nodes, RS, S⟩ crj i pn = .ok ⟨dataZ, nodes, RS, S⟩ ∧ DataEq dataZ (post cur s))
+    (hpre_p : ∀ s, (pre_ s).pending = s.pending) (hpre_j : ∀ s, s.jumps.size ≤ (pre_ s).jumps.size)
+    (hpost_p : ∀ cur s, (post cur s).pending = s.pending)
+    (hemit : ∀ root cur s, emit root cur e s = post cur (emit root cur x (pre_ s)))
+    (ih : SimT pf tree bodies clo chi c x) : SimT pf tree bodies lo hi i e :=
+  SimF.toT (sim_one_childF hpn hin hci hct hiv hni hfirst hsecond hpre_p hpre_j hpost_p hemit ih)
 
 theorem sim_unaryPre {hi i r : Nat} {op : Instruction} {x : Expr F} {pn : ParseNode} (hpn : tree[i]? = some pn)
     (hop : prefixOp pn.definition = some op) (hr : pn.right = some r) (hri : i + 1 ≤ r ∧ r < hi) (hrt : r < tree.size)
